@@ -24,8 +24,16 @@ TRUSTED = ["SVD contract for the covariance decomposition", "inv contract (A B =
 ASSUMPTIONS = ["every singular value of the covariance exceeds 1e-12 (full column rank)", "a syntactically Hermitian matrix handed to the SVD is positive semi-definite (here always a Gram matrix X^H X / n), so its left and right singular vectors coincide"]
 
 
-def _centred(B, n, p, cplx=False):
+def _centred(B, n, p, cplx=False, illcond=False):
     X = B.array((n, p), "x", cplx)
+    if illcond:
+        # same symbolic generality (image under an invertible concrete map), but the WITNESS is ill-conditioned
+        # (cond ~ 1e5, inside the property's range up to 1e6): columns nearly collinear
+        mix = np.eye(p)
+        mix[0, 1:] = 1.0
+        for j in range(1, p):
+            mix[j, j] = 1e-5
+        X = X @ mix
     X = X - X.mean(axis=0)
     return xr.DataArray(X, dims=("sample", "feature"), coords={"sample": list(range(n)), "feature": list(range(p))}, name="v_x")
 
@@ -34,8 +42,8 @@ def _H(A):
     return np.conjugate(A).T
 
 
-def h_whitener(B, n=4, p=2, alpha=0.5, cplx=False, q=None):
-    X = _centred(B, n, p, cplx)
+def h_whitener(B, n=4, p=2, alpha=0.5, cplx=False, q=None, illcond=False):
+    X = _centred(B, n, p, cplx, illcond)
     W = Whitener(alpha=alpha)
     B.covers("Whitener.fit", "_fractional_matrix_power")
     XT = W.fit_transform(X)
@@ -108,11 +116,15 @@ def configs(tier):
     out = []
 
     def add(fn, key, **params):
-        out.append({"key": key, "fn": fn, "params": params, "options": {"full_rank": True, "hermitian_psd_inputs": True, "budget_s": 80 if tier == "quick" else 900}})
+        o = {"full_rank": True, "hermitian_psd_inputs": True, "budget_s": 80 if tier == "quick" else 900}
+        if params.get("illcond"):
+            o["float_rtol"] = 1e-4  # replay tolerance for the witness with condition number 1e5 (rounding ~ cond^2 * eps)
+        out.append({"key": key, "fn": fn, "params": params, "options": o})
 
     for alpha in (0, 1, 0.5):
         add("h_whitener", f"Whitener|alpha={alpha}|n4p2", n=4, p=2, alpha=alpha)
     add("h_whitener", "Whitener|alpha=0|complex|n4p2", n=4, p=2, alpha=0, cplx=True)
+    add("h_whitener", "Whitener|alpha=0|ill-conditioned witness (cond 1e5)|n4p2", n=4, p=2, alpha=0, illcond=True)
     add("h_pca", "PCA|all|n4p3", n=4, p=3, k="all")
     add("h_pca", "PCA|k=2|n4p3", n=4, p=3, k=2)
     add("h_pca", "PCA|all|complex|n4p2", n=4, p=2, k="all", cplx=True)
